@@ -157,8 +157,8 @@ func (m *verifMon) check(k *Kernel, ev string, s *kState) {
 		m.vers[k] = map[[2]uint64]uint32{}
 		m.emit(map[string]any{"kind": "kernel"})
 	}
-	if m.events%500 == 0 {
-		m.emit(map[string]any{"kind": "progress", "events": m.events})
+	if m.events%100 == 0 {
+		m.emit(map[string]any{"kind": "progress", "pid": os.Getpid(), "events": m.events})
 	}
 
 	m.checkView(k, "Voting", &s.Voting)
